@@ -29,8 +29,8 @@ LEVEL = "fault_enumeration"
 RULE = ("cases = (scenario, deviation): scenarios = entry {WriteTool, atomic_write_octave, `octave write`} x {new file, overwrite, changes, "
         "normalize} x base_hash {none, matching, stale} x {parent present, parent missing} x file mode {0644, 0444} (meaningful "
         "combinations); deviations = every call boundary k of the fault-free run as kill point and power-loss point, every (k, errno) "
-        "single fault over 5 errnos, and fault pairs (k1,e1)->(k2,e2) where k2 ranges over the calls that follow the first fault (quick: "
-        "second errno EIO; thorough: all 25 errno pairs). non-trivial = an execution in which the deviation was reached; distinct = "
+        "single fault over 5 errnos, and second deviations (k1,e1)->(k2, errno or kill) where k2 ranges over the calls that follow the first "
+        "fault; first errnos whose continuation call sequence is identical are merged (quick: second errno EIO; thorough: all 5). non-trivial = an execution in which the deviation was reached; distinct = "
         "distinct (scenario, deviation, final directory state).")
 ASSUMPTIONS = [
     "the interposer sees every libc file call of the child (setup audits libpython's imported symbols); kernel-internal non-atomicity is outside the model",
@@ -342,16 +342,25 @@ def check_scenario(case) -> Res:
             record(("power", k), judge(sc, ("power", k), r, psnap, prev, pmode, new_bytes, r["log"]), r, psnap)
     # (c) single faults
     for k in range(N):
+        groups = {}      # continuation signature -> representative errno (errnos the code cannot tell apart are merged: sound state merging)
         for e1 in ERRNOS:
             r, snap, sb, target = run_dev(("fail", k, e1), mode=shim.LOG | shim.FAIL, fail_k=k, fail_errno=e1)
             record(("fail", k), judge(sc, ("fail", k), r, snap, prev, pmode, new_bytes, r["log"]), r, snap)
             extra.append((json.dumps(sc, sort_keys=True), "fail", k, e1, (r["result"] or {}).get("status"), hashlib.sha1(repr(snap["target_bytes"]).encode()).hexdigest()))
-            # (d) pairs: second fault over the sequence that follows the first one
-            second = [errno.EIO] if quick else ERRNOS
-            if quick and e1 != errno.EIO:
-                continue
-            n2 = len([x for x in r["log"] if x["k"] >= 0])
-            for k2 in range(k + 1, n2):
+            sig = tuple((x["op"], "T" if x["path"] == target else ("tmp" if x["path"].endswith(".tmp") else os.path.basename(x["path"])), x["result"] < 0)
+                        for x in r["log"] if x["k"] > k)
+            if sig not in groups:
+                groups[sig] = (e1, len([x for x in r["log"] if x["k"] >= 0]))
+        # (d) second deviation over the sequence that follows the first fault: one representative first-errno per distinct continuation
+        second = [errno.EIO] if quick else ERRNOS
+        for sig, (e1, n2) in groups.items():
+            for k2 in range(k + 1, n2 + 1):
+                # fault + kill
+                r2, snap2, sb2, t2 = run_dev(("fail+kill", k, e1, k2), mode=shim.LOG | shim.FAIL | shim.EXIT, fail_k=k, fail_errno=e1, exit_k=k2)
+                if r2["status"] == 137:
+                    record(("fail+kill", k, k2), judge(sc, ("kill", k2), r2, snap2, prev, pmode, new_bytes, r2["log"]), r2, snap2)
+                if k2 == n2:
+                    continue
                 for e2 in second:
                     r2, snap2, sb2, t2 = run_dev(("fail2", k, e1, k2, e2), mode=shim.LOG | shim.FAIL, fail_k=k, fail_errno=e1, fail_k2=k2, fail_errno2=e2)
                     record(("fail2", k, k2), judge(sc, ("fail2", k, k2), r2, snap2, prev, pmode, new_bytes, r2["log"]), r2, snap2)
